@@ -341,7 +341,14 @@ where
         log!("{}: {:?}", "Token ahead".paint(LOG), &next_token);
 
         loop {
-            let action = self.definition.actions(state, next_token.kind)[0];
+            // A lexer (e.g. a custom one) may return a token kind for which
+            // there is no action in the current state.
+            let action = self
+                .definition
+                .actions(state, next_token.kind)
+                .first()
+                .copied()
+                .unwrap_or(Action::Error);
 
             match action {
                 Action::Shift(state_id) => {
